@@ -1,10 +1,13 @@
 package c16
 
 import (
+	"bytes"
 	"fmt"
 	"math/big"
 	"strings"
 	"time"
+
+	"verif/model"
 
 	"github.com/youchainhq/go-youchain/common"
 	"github.com/youchainhq/go-youchain/core/state"
@@ -18,6 +21,12 @@ import (
 //     a CALL-family instruction than before it;
 //   - nothing observable changes between a STATICCALL instruction and the next step of the frame
 //     that issued it;
+//   - (programs under intrusive observation) a CALL/CALLCODE/DELEGATECALL/STATICCALL that pushes 0
+//     leaves the caller's balance and the callee's account (existence, balance, nonce, code size)
+//     as they were at the instruction - whatever the callee is: a contract, a native contract that
+//     ran out of gas or rejected its input, an absent or code-less account that was never entered;
+//   - a call that started no frame the tracer could see (native contract, code-less callee, refused
+//     call) never hands back more than the gas operand plus the 2300 stipend of a value-bearing call;
 //
 // and it reconstructs the frame tree (which frames ended in an error or revert) to count the
 // effects that had to be undone and to sum the value burnt by SELFDESTRUCT-to-self in frames
@@ -35,12 +44,65 @@ type frameRec struct {
 	child                            *childEnd
 	wantCreated                      bool
 	kidsReturned, staticKidsReturned int
+	// the call-family instruction this frame executed last
+	pend *pendingCall
+	// the creation instruction this frame executed last
+	pendCreate *pendingCreate
+	watchIdx   []int // watched creations issued by this frame
+	// the creation frame, child of this one, whose constructor ended normally and whose fate (code
+	// deposit) is not known yet
+	pendMerge *frameRec
+	retSize   uint64 // size operand of the RETURN the frame executed last
+	// accounts that self-destructed for the first time / once more in this frame or in its surviving
+	// descendants
+	firstSD, reSD map[common.Address]bool
+}
+
+// pendingCall: what was seen at a call-family instruction, to be judged at the next step of the frame.
+type pendingCall struct {
+	op        vm.OpCode
+	caller    common.Address
+	target    common.Address
+	hasValue  bool
+	reqGas    *big.Int // the gas operand
+	observed  bool     // the fields below were read from the state
+	refused   bool     // value above the caller's balance: no frame is started
+	class     string
+	callerBal *big.Int
+	tgtBal    *big.Int
+	tgtExist  bool
+	tgtNonce  uint64
+	tgtCode   int
 }
 
 type childEnd struct {
 	firstGas uint64
 	ub       uint64 // upper bound of what it can have returned
 	failed   bool
+	lastOp   vm.OpCode
+	retSize  uint64
+}
+
+// pendingCreate: what was seen at a CREATE/CREATE2 instruction, to be judged at the next step of the frame.
+type pendingCreate struct {
+	op       vm.OpCode
+	creator  common.Address
+	watched  bool
+	observed bool // the fields below were read from the state
+	addr     common.Address
+	creBal   *big.Int
+	exist    bool
+	bal      *big.Int
+	nonce    uint64
+	code     int
+}
+
+// createEvent: the fate of a creation whose init code is the watched one.
+type createEvent struct {
+	ok           bool // an address was pushed
+	childSeen    bool // the constructor ran
+	ctorReturned bool // the constructor ended normally (a failure can then only come from the code deposit)
+	creatorOK    bool // the frame that issued the creation ended normally
 }
 
 type tviol struct {
@@ -49,24 +111,31 @@ type tviol struct {
 }
 
 type tracer struct {
-	st       *state.StateDB
-	addrs    []common.Address
-	observe  bool
-	stack    []*frameRec
-	viol     []tviol
-	cnt      map[string]int
-	feats    map[string]bool
-	extra    map[common.Address]bool
-	maxDepth int
-	checks   int
-	selfBurn *big.Int
+	st      *state.StateDB
+	addrs   []common.Address
+	observe bool
+	stack   []*frameRec
+	viol    []tviol
+	cnt     map[string]int
+	feats   map[string]bool
+	extra   map[common.Address]bool
+	// callees of value-bearing CALLs that pushed 0 (read off the stack, no state access)
+	failedValueCalls map[common.Address]int
+	// creations with this init code are reported in watch (used to size gas and to confirm the verdict)
+	watchInit []byte
+	watch     []createEvent
+	// top-level creation: the constructor ended normally (set by finish)
+	topCtorReturned bool
+	maxDepth        int
+	checks          int
+	selfBurn        *big.Int
 
 	staticDepth  int
 	staticDigest map[string]string
 }
 
 func newTracer(st *state.StateDB, addrs []common.Address, observe bool) *tracer {
-	return &tracer{st: st, addrs: addrs, observe: observe, cnt: map[string]int{}, feats: map[string]bool{}, extra: map[common.Address]bool{}, selfBurn: new(big.Int)}
+	return &tracer{st: st, addrs: addrs, observe: observe, cnt: map[string]int{}, feats: map[string]bool{}, extra: map[common.Address]bool{}, failedValueCalls: map[common.Address]int{}, selfBurn: new(big.Int)}
 }
 
 func (t *tracer) CaptureStart(from common.Address, to common.Address, call bool, input []byte, gas uint64, value *big.Int) error {
@@ -122,6 +191,9 @@ func (t *tracer) liveDigest() map[string]string {
 			d[k+"codehash"] = fmt.Sprintf("%x", t.st.GetCodeHash(a))
 		}
 		d["~"+k+"exists"] = fmt.Sprint(t.st.Exist(a))
+		if model.C16PrecompileIndex(ma(a)) > 0 && !t.st.Exist(a) {
+			continue
+		}
 		for _, s := range allSlots {
 			if v := t.st.GetState(a, slotHash(s)); v != (common.Hash{}) {
 				d[k+fmt.Sprintf("slot%#x", s)] = fmt.Sprintf("%x", v)
@@ -155,6 +227,68 @@ func diffDigest(a, b map[string]string) []string {
 func (t *tracer) closeFrame(failed bool, why string) {
 	fr := t.stack[len(t.stack)-1]
 	t.stack = t.stack[:len(t.stack)-1]
+	if pm := fr.pendMerge; pm != nil {
+		// (cannot happen: the creator always sees another step) a creation never resolved counts as survived
+		fr.pendMerge = nil
+		t.account(pm, false, "")
+		fr.absorb(pm)
+	}
+	// a creation frame whose constructor ended normally can still fail (code deposit, code size): its
+	// fate is known at the creator's next step (resolveCreate), at top level when the call has returned
+	deferred := !failed && isCreateOp(fr.entered) && len(t.stack) > 0
+	if !deferred {
+		t.account(fr, failed, why)
+	}
+	for _, i := range fr.watchIdx {
+		t.watch[i].creatorOK = !failed
+	}
+	ub := fr.lastGas
+	if !failed || why == "revert" {
+		if fr.lastCost <= fr.lastGas {
+			ub = fr.lastGas - fr.lastCost
+		}
+	}
+	if len(t.stack) > 0 {
+		p := t.stack[len(t.stack)-1]
+		p.child = &childEnd{firstGas: fr.firstGas, ub: ub, failed: failed, lastOp: fr.lastOp, retSize: fr.retSize}
+		p.kidsReturned++
+		if fr.entered == vm.STATICCALL {
+			p.staticKidsReturned++
+		}
+		if deferred {
+			p.pendMerge = fr
+		} else if !failed {
+			p.absorb(fr)
+		}
+	} else if !failed {
+		t.selfBurn.Add(t.selfBurn, fr.selfBurn)
+		t.cnt["surviving_sstores"] += fr.sstores
+		t.cnt["surviving_logs_emitted"] += fr.logs
+		t.cnt["surviving_value_transfers"] += fr.xfers
+		t.cnt["surviving_creates"] += fr.creates
+		t.cnt["surviving_selfdestructs"] += fr.suicides
+	}
+}
+
+// absorb: what a surviving child did is now the parent's.
+func (p *frameRec) absorb(fr *frameRec) {
+	p.sstores += fr.sstores
+	p.logs += fr.logs
+	p.xfers += fr.xfers
+	p.creates += fr.creates
+	p.suicides += fr.suicides
+	p.writebacks += fr.writebacks
+	p.selfBurn.Add(p.selfBurn, fr.selfBurn)
+	for a := range fr.firstSD {
+		p.markSD(a, true)
+	}
+	for a := range fr.reSD {
+		p.markSD(a, false)
+	}
+}
+
+// account counts the end of a frame.
+func (t *tracer) account(fr *frameRec, failed bool, why string) {
 	kind := "top"
 	if fr.entered != 0 {
 		kind = fr.entered.String()
@@ -189,42 +323,20 @@ func (t *tracer) closeFrame(failed bool, why string) {
 		if fr.static {
 			t.cnt["static_frames_failed"]++
 		}
+		for a := range fr.reSD {
+			if !fr.firstSD[a] {
+				// the first SELFDESTRUCT of the account lies outside this failed frame: its mark must survive
+				// the undoing of the repeated one
+				t.cnt["repeated_selfdestructs_undone_while_the_first_lies_outside_the_failed_frame"]++
+				t.feats["repeated-selfdestruct-undone"] = true
+			}
+		}
 	} else {
 		t.cnt["frames_ended_normally"]++
 		t.cnt["frames_ended_normally_entered_by_"+kind]++
 		if fr.static {
 			t.cnt["static_frames_ended_normally"]++
 		}
-	}
-	ub := fr.lastGas
-	if !failed || why == "revert" {
-		if fr.lastCost <= fr.lastGas {
-			ub = fr.lastGas - fr.lastCost
-		}
-	}
-	if len(t.stack) > 0 {
-		p := t.stack[len(t.stack)-1]
-		p.child = &childEnd{firstGas: fr.firstGas, ub: ub, failed: failed}
-		p.kidsReturned++
-		if fr.entered == vm.STATICCALL {
-			p.staticKidsReturned++
-		}
-		if !failed {
-			p.sstores += fr.sstores
-			p.logs += fr.logs
-			p.xfers += fr.xfers
-			p.creates += fr.creates
-			p.suicides += fr.suicides
-			p.writebacks += fr.writebacks
-			p.selfBurn.Add(p.selfBurn, fr.selfBurn)
-		}
-	} else if !failed {
-		t.selfBurn.Add(t.selfBurn, fr.selfBurn)
-		t.cnt["surviving_sstores"] += fr.sstores
-		t.cnt["surviving_logs_emitted"] += fr.logs
-		t.cnt["surviving_value_transfers"] += fr.xfers
-		t.cnt["surviving_creates"] += fr.creates
-		t.cnt["surviving_selfdestructs"] += fr.suicides
 	}
 }
 
@@ -235,21 +347,32 @@ func (t *tracer) finish(ok bool) {
 	}
 	if len(t.stack) == 1 {
 		// a top-level creation can still fail after its last instruction (code deposit)
+		top := t.stack[0]
+		t.topCtorReturned = true
+		if !ok {
+			if top.lastOp == vm.RETURN && top.retSize > 24576 {
+				t.cnt["creates_failing_code_too_large"]++
+			} else {
+				t.cnt["creates_failing_at_code_deposit"]++
+				t.cnt["toplevel_creates_failing_at_code_deposit"]++
+				t.feats["create-failed-at-code-deposit"] = true
+			}
+		}
 		t.closeFrame(!ok, "after-last-step")
 	}
 }
 
 func (t *tracer) CaptureState(env *vm.EVM, pc uint64, op vm.OpCode, gas, cost uint64, memory *vm.Memory, stack *vm.Stack, contract *vm.Contract, depth int, err error) error {
-	t.step(pc, op, gas, cost, stack, contract, depth, err, false)
+	t.step(pc, op, gas, cost, memory, stack, contract, depth, err, false)
 	return nil
 }
 
 func (t *tracer) CaptureFault(env *vm.EVM, pc uint64, op vm.OpCode, gas, cost uint64, memory *vm.Memory, stack *vm.Stack, contract *vm.Contract, depth int, err error) error {
-	t.step(pc, op, gas, cost, stack, contract, depth, err, true)
+	t.step(pc, op, gas, cost, memory, stack, contract, depth, err, true)
 	return nil
 }
 
-func (t *tracer) step(pc uint64, op vm.OpCode, gas, cost uint64, stack *vm.Stack, contract *vm.Contract, depth int, err error, fault bool) {
+func (t *tracer) step(pc uint64, op vm.OpCode, gas, cost uint64, memory *vm.Memory, stack *vm.Stack, contract *vm.Contract, depth int, err error, fault bool) {
 	t.cnt["steps"]++
 	// frames deeper than this event ended without an error event: normal halt
 	for len(t.stack) > depth {
@@ -293,6 +416,26 @@ func (t *tracer) step(pc uint64, op vm.OpCode, gas, cost uint64, stack *vm.Stack
 			if fr.child != nil && gas > prev-min(pcost, prev)+fr.child.ub {
 				t.violation("gas-returned-exceeds-supplied", fmt.Sprintf("depth %d: %v cost %d of %d, child first seen with %d and last seen owning at most %d, caller continues with %d", depth, fr.lastOp, pcost, prev, fr.child.firstGas, fr.child.ub, gas), nil)
 			}
+			if pc := fr.pend; pc != nil && fr.child == nil {
+				// no frame of the callee was seen: supplied <= gas operand (go-youchain's callGas serves a ZERO
+				// operand with 2300, charged to the caller), and the instruction's cost contains what was
+				// supplied; the stipend comes on top
+				sup := pcost
+				if pc.reqGas.IsUint64() && pc.reqGas.Uint64() < sup {
+					sup = pc.reqGas.Uint64()
+					if sup < 2300 {
+						sup = min(2300, pcost)
+					}
+				}
+				if pc.hasValue {
+					sup += 2300
+				}
+				t.checks++
+				t.cnt["leaf_call_returns_checked"]++
+				if gas > prev-min(pcost, prev)+sup {
+					t.violation("gas-returned-exceeds-supplied", fmt.Sprintf("depth %d: %v to %x (no callee frame seen) cost %d of %d, gas operand %v, value-bearing %v, caller continues with %d", depth, fr.lastOp, pc.target[:], pcost, prev, pc.reqGas, pc.hasValue, gas), nil)
+				}
+			}
 		case isCreateOp(fr.lastOp):
 			if gas > prev {
 				t.violation("caller-gas-grew-across-call", fmt.Sprintf("depth %d: %d gas before %v, %d at the next step of the same frame", depth, prev, fr.lastOp, gas), nil)
@@ -331,6 +474,14 @@ func (t *tracer) step(pc uint64, op vm.OpCode, gas, cost uint64, stack *vm.Stack
 		}
 		t.staticDepth, t.staticDigest = 0, nil
 	}
+	if pc := fr.pend; pc != nil && len(stack.Data()) > 0 {
+		t.resolveCall(fr, pc, stack.Back(0).Sign() != 0, depth)
+	}
+	fr.pend = nil
+	if pc := fr.pendCreate; pc != nil && len(stack.Data()) > 0 {
+		t.resolveCreate(fr, pc, stack.Back(0).Sign() != 0, depth)
+	}
+	fr.pendCreate = nil
 	if fr.wantCreated && err == nil && len(stack.Data()) > 0 {
 		t.extra[common.BigToAddress(stack.Back(0))] = true
 	}
@@ -380,12 +531,15 @@ func (t *tracer) step(pc uint64, op vm.OpCode, gas, cost uint64, stack *vm.Stack
 			}
 		}
 		t.cnt["op_"+op.String()]++
+		t.noteCall(fr, op, ctx, stack, stack.Back(2))
 	case op == vm.DELEGATECALL:
 		t.extra[common.BigToAddress(stack.Back(1))] = true
 		t.cnt["op_DELEGATECALL"]++
+		t.noteCall(fr, op, ctx, stack, nil)
 	case op == vm.STATICCALL:
 		t.extra[common.BigToAddress(stack.Back(1))] = true
 		t.cnt["op_STATICCALL"]++
+		t.noteCall(fr, op, ctx, stack, nil)
 		if fr.static {
 			t.cnt["staticcall_inside_static_context"]++
 			t.feats["static-in-static"] = true
@@ -398,6 +552,12 @@ func (t *tracer) step(pc uint64, op vm.OpCode, gas, cost uint64, stack *vm.Stack
 		fr.creates++
 		fr.wantCreated = true
 		t.cnt["op_"+op.String()]++
+		t.noteCreate(fr, op, ctx, memory, stack)
+	case op == vm.RETURN:
+		fr.retSize = ^uint64(0)
+		if stack.Back(1).IsUint64() {
+			fr.retSize = stack.Back(1).Uint64()
+		}
 	case op == vm.SELFDESTRUCT:
 		fr.suicides++
 		b := common.BigToAddress(stack.Back(0))
@@ -409,6 +569,9 @@ func (t *tracer) step(pc uint64, op vm.OpCode, gas, cost uint64, stack *vm.Stack
 		}
 		if t.st.HasSuicided(ctx) {
 			t.cnt["selfdestruct_of_already_selfdestructed_account"]++
+			fr.markSD(ctx, false)
+		} else {
+			fr.markSD(ctx, true)
 		}
 	}
 }
@@ -418,4 +581,233 @@ func min(a, b uint64) uint64 {
 		return a
 	}
 	return b
+}
+
+func (fr *frameRec) markSD(a common.Address, first bool) {
+	if fr.firstSD == nil {
+		fr.firstSD, fr.reSD = map[common.Address]bool{}, map[common.Address]bool{}
+	}
+	if first {
+		fr.firstSD[a] = true
+	} else {
+		fr.reSD[a] = true
+	}
+}
+
+// noteCall records a call-family instruction; under intrusive observation it also reads what a
+// failed call must leave alone.
+func (t *tracer) noteCall(fr *frameRec, op vm.OpCode, ctx common.Address, stack *vm.Stack, value *big.Int) {
+	pc := &pendingCall{op: op, caller: ctx, target: common.BigToAddress(stack.Back(1)), reqGas: new(big.Int).Set(stack.Back(0))}
+	pc.hasValue = value != nil && value.Sign() != 0
+	fr.pend = pc
+	if model.C16PrecompileIndex(ma(pc.target)) > 0 {
+		t.cnt["call_instructions_targeting_a_precompile"]++
+	}
+	if !t.observe {
+		return
+	}
+	pc.observed = true
+	pc.callerBal = new(big.Int).Set(t.st.GetBalance(ctx))
+	pc.tgtBal = new(big.Int).Set(t.st.GetBalance(pc.target))
+	pc.tgtExist = t.st.Exist(pc.target)
+	pc.tgtNonce = t.st.GetNonce(pc.target)
+	pc.tgtCode = t.st.GetCodeSize(pc.target)
+	pc.refused = pc.hasValue && value.Cmp(pc.callerBal) > 0
+	switch {
+	case model.C16PrecompileIndex(ma(pc.target)) > 0:
+		pc.class = "precompile"
+	case pc.target == ctx:
+		pc.class = "self"
+	case !pc.tgtExist:
+		pc.class = "nonexistent"
+	case t.st.HasSuicided(pc.target):
+		pc.class = "selfdestructed"
+	case pc.tgtCode > 0:
+		pc.class = "contract"
+	case t.st.Empty(pc.target):
+		pc.class = "empty"
+	case pc.tgtNonce > 0:
+		pc.class = "eoa"
+	default:
+		pc.class = "codeless_funded"
+	}
+}
+
+var callKinds = map[vm.OpCode]int{vm.CALL: model.C16KCall, vm.CALLCODE: model.C16KCallCode, vm.DELEGATECALL: model.C16KDelegate, vm.STATICCALL: model.C16KStatic}
+
+// resolveCall judges a call-family instruction at the next step of the frame that issued it.
+func (t *tracer) resolveCall(fr *frameRec, pc *pendingCall, ok bool, depth int) {
+	if !ok && pc.hasValue && pc.op == vm.CALL {
+		t.failedValueCalls[pc.target]++
+	}
+	if !pc.observed {
+		return
+	}
+	outcome := "ok"
+	switch {
+	case ok:
+	case pc.refused:
+		outcome = "refused"
+	default:
+		outcome = "failed"
+	}
+	key := model.C16CallKey(callKinds[pc.op], pc.class, pc.hasValue, outcome)
+	t.cnt[key]++
+	if pc.class == "precompile" {
+		t.cnt[fmt.Sprintf("precompile_0x%02x_calls_%s", pc.target[19], outcome)]++
+		if pc.hasValue && pc.op == vm.CALL && !ok && !pc.refused {
+			t.feats["precompile-value-call-failed"] = true
+		}
+	}
+	if ok {
+		return
+	}
+	// a frame that ended in an error or revert (or never started): everything as before
+	t.checks++
+	t.cnt["failed_calls_checked_caller_and_callee_unchanged"]++
+	var d []string
+	if g := t.st.GetBalance(pc.caller); g.Cmp(pc.callerBal) != 0 {
+		d = append(d, fmt.Sprintf("%x/balance (caller): %v -> %v", pc.caller[:], pc.callerBal, g))
+	}
+	if g := t.st.GetBalance(pc.target); g.Cmp(pc.tgtBal) != 0 {
+		d = append(d, fmt.Sprintf("%x/balance (callee): %v -> %v", pc.target[:], pc.tgtBal, g))
+	}
+	if g := t.st.Exist(pc.target); g != pc.tgtExist {
+		d = append(d, fmt.Sprintf("%x/exists (callee): %v -> %v", pc.target[:], pc.tgtExist, g))
+	}
+	if g := t.st.GetNonce(pc.target); g != pc.tgtNonce {
+		d = append(d, fmt.Sprintf("%x/nonce (callee): %d -> %d", pc.target[:], pc.tgtNonce, g))
+	}
+	if g := t.st.GetCodeSize(pc.target); g != pc.tgtCode {
+		d = append(d, fmt.Sprintf("%x/codesize (callee): %d -> %d", pc.target[:], pc.tgtCode, g))
+	}
+	if pc.class == "precompile" {
+		t.cnt["failed_calls_to_precompile_checked_account_unchanged"]++
+		if !pc.tgtExist {
+			t.cnt["failed_calls_to_precompile_checked_account_still_nonexistent"]++
+		}
+	}
+	if len(d) > 0 {
+		class := "failed-call-left-trace"
+		if pc.class == "precompile" {
+			class = "failed-call-to-precompile-left-trace"
+		}
+		how := "failed"
+		if pc.refused {
+			how = "was refused (value above the caller's balance)"
+		}
+		val := "without value"
+		if pc.hasValue {
+			val = "with value"
+		}
+		t.violation(class, fmt.Sprintf("depth %d: %v %s from %x to %x (%s) %s and pushed 0, yet: %s", depth, pc.op, val, pc.caller[:], pc.target[:], pc.class, how, firstN(d, 5)), d)
+	}
+}
+
+// noteCreate records a CREATE/CREATE2 instruction; under intrusive observation it also reads what a
+// failed creation must leave alone.
+func (t *tracer) noteCreate(fr *frameRec, op vm.OpCode, ctx common.Address, memory *vm.Memory, stack *vm.Stack) {
+	pc := &pendingCreate{op: op, creator: ctx}
+	fr.pendCreate = pc
+	if t.watchInit == nil && !t.observe {
+		return
+	}
+	var init []byte
+	if off, size := stack.Back(1), stack.Back(2); off.IsInt64() && size.IsInt64() && size.Int64() <= 0x10000 {
+		init = memory.Get(off.Int64(), size.Int64())
+	} else {
+		return
+	}
+	pc.watched = t.watchInit != nil && bytes.Equal(init, t.watchInit)
+	if !t.observe {
+		return
+	}
+	if op == vm.CREATE {
+		pc.addr = ca(model.C16CreateAddr(ma(ctx), t.st.GetNonce(ctx)))
+	} else {
+		salt := stack.Back(3)
+		if !salt.IsUint64() {
+			return
+		}
+		pc.addr = ca(model.C16Create2Addr(ma(ctx), salt.Uint64(), init))
+	}
+	pc.observed = true
+	pc.creBal = new(big.Int).Set(t.st.GetBalance(ctx))
+	pc.exist = t.st.Exist(pc.addr)
+	pc.bal = new(big.Int).Set(t.st.GetBalance(pc.addr))
+	pc.nonce = t.st.GetNonce(pc.addr)
+	pc.code = t.st.GetCodeSize(pc.addr)
+}
+
+// resolveCreate judges a creation at the next step of the frame that issued it.
+func (t *tracer) resolveCreate(fr *frameRec, pc *pendingCreate, ok bool, depth int) {
+	ch := fr.child
+	ctorReturned := ch != nil && !ch.failed
+	if pm := fr.pendMerge; pm != nil {
+		fr.pendMerge = nil
+		if ok {
+			t.account(pm, false, "")
+			fr.absorb(pm)
+		} else {
+			// everything the constructor and its descendants did is undone
+			t.account(pm, true, "code-deposit")
+		}
+	}
+	if !ok && ctorReturned {
+		// the constructor ended normally and yet no address was pushed: the code was not deposited
+		if ch.lastOp == vm.RETURN && ch.retSize > 24576 {
+			t.cnt["creates_failing_code_too_large"]++
+		} else {
+			t.cnt["creates_failing_at_code_deposit"]++
+			t.cnt["creates_failing_at_code_deposit_by_"+pc.op.String()]++
+			t.feats["create-failed-at-code-deposit"] = true
+		}
+	}
+	if pc.watched {
+		fr.watchIdx = append(fr.watchIdx, len(t.watch))
+		t.watch = append(t.watch, createEvent{ok: ok, childSeen: ch != nil, ctorReturned: ctorReturned})
+	}
+	if !pc.observed || ok {
+		return
+	}
+	// a creation frame that ended in an error or revert (or never started): the creator's balance and
+	// whatever was at the new address are as before (the creator's nonce is the creator's own effect)
+	t.checks++
+	t.cnt["failed_creates_checked_creator_and_address_unchanged"]++
+	if !ok && ctorReturned {
+		t.cnt["creates_failing_at_code_deposit_checked_address_unchanged"]++
+	}
+	var d []string
+	if g := t.st.GetBalance(pc.creator); g.Cmp(pc.creBal) != 0 {
+		d = append(d, fmt.Sprintf("%x/balance (creator): %v -> %v", pc.creator[:], pc.creBal, g))
+	}
+	if g := t.st.GetBalance(pc.addr); g.Cmp(pc.bal) != 0 {
+		d = append(d, fmt.Sprintf("%x/balance (new address): %v -> %v", pc.addr[:], pc.bal, g))
+	}
+	if g := t.st.Exist(pc.addr); g != pc.exist {
+		d = append(d, fmt.Sprintf("%x/exists (new address): %v -> %v", pc.addr[:], pc.exist, g))
+	}
+	if g := t.st.GetNonce(pc.addr); g != pc.nonce {
+		d = append(d, fmt.Sprintf("%x/nonce (new address): %d -> %d", pc.addr[:], pc.nonce, g))
+	}
+	if g := t.st.GetCodeSize(pc.addr); g != pc.code {
+		d = append(d, fmt.Sprintf("%x/codesize (new address): %d -> %d", pc.addr[:], pc.code, g))
+	}
+	if pc.nonce == 0 && pc.code == 0 {
+		// nothing lived there: whatever the constructor wrote is gone again
+		for _, sl := range allSlots {
+			if v := t.st.GetState(pc.addr, slotHash(sl)); v != (common.Hash{}) {
+				d = append(d, fmt.Sprintf("%x/slot%#x (new address): 0 -> %x", pc.addr[:], sl, v))
+			}
+		}
+	}
+	if len(d) > 0 {
+		how := "failed"
+		if ctorReturned {
+			how = "failed after its constructor had ended normally (code deposit)"
+		} else if ch == nil {
+			how = "was refused or failed before its first instruction"
+		}
+		t.violation("failed-create-left-trace", fmt.Sprintf("depth %d: %v by %x of address %x %s and pushed 0, yet: %s", depth, pc.op, pc.creator[:], pc.addr[:], how, firstN(d, 5)), d)
+	}
 }
